@@ -250,7 +250,7 @@ func (r *sharedResource) setPartitionId(index uint32, id string) {
 
 }
 
-func (r *sharedResource) clearPartitionId(index uint32) {
+func (r *sharedResource) clearPartitionId(index uint32, id string) {
 
 	// get a write lock
 	r.partlock.Lock()
@@ -258,7 +258,8 @@ func (r *sharedResource) clearPartitionId(index uint32) {
 
 	// clear the id
 	// NOTE: clearing happens outside the Loop, so the partition could have already been truncated making the index is too high
-	if int(index) < len(r.partitions) {
+	// NOTE: the partition could also have been dropped by a resize and then leased again, in which case it holds a newer id and must be kept
+	if int(index) < len(r.partitions) && r.partitions[index] != nil && *r.partitions[index] == id {
 		r.partitions[index] = nil
 	}
 
@@ -337,7 +338,7 @@ func (r *sharedResource) loop(ctx context.Context) {
 				select {
 				case <-ctx.Done():
 				case <-time.After(leaseTime):
-					r.clearPartitionId(i)
+					r.clearPartitionId(i, id)
 					r.Emit(ReleasedEvent, int(index), "", nil)
 					r.calc()
 				}
